@@ -27,8 +27,8 @@ class C36(Check):
     components = {"real": ["ioflo.aio.proto.stacking.TcpServerStack", "ioflo.aio.proto.stacking.TcpClientStack", "ioflo.aio.proto.packeting.Packet (receive side)",
                            "ioflo.aio.tcp Server/Incomer/Client"],
                   "stub": ["socket module", "send-side packets (pre-packed bytes)"]}
-    assumptions = ["no connection loss is injected (C25/C27 cover it): the property speaks of a connected peer"]
-    required_probes = ["partial-send", "both-directions", "two-clients", "completed"]
+    assumptions = ["no connection loss is injected while packets are queued (C25/C27 cover it): the property speaks of a connected peer; the only close is the orderly one of the epilogue, after the sender's last byte has left"]
+    required_probes = ["partial-send", "both-directions", "two-clients", "completed", "sender-closed-after-last-packet"]
     quick_runs = 8000
     thorough_runs = 400000
     shrink_fields = ["schedule", "ops"]
@@ -53,7 +53,10 @@ class C36(Check):
                 sched.append(["q"])
             else:
                 sched.append(["d", s.randrange(2 * nc), s.choice([1, 2, 5, 1 << 20])])
-        return {"nclients": nc, "cap": g.choice([1, 3, 8, 64]), "ops": ops, "schedule": sched}
+        # epilogue: one more packet, then the sender's end of the connection is closed before the receiver is serviced again,
+        # so that the receiver reads the last bytes and the end of stream in one service pass (received bytes must still be delivered)
+        return {"nclients": nc, "cap": g.choice([1, 3, 8, 64]), "ops": ops, "schedule": sched,
+                "closing": g.choice([None, None, ["s2c", g.randrange(nc), g.choice([1, 5, 30])], ["c2s", g.randrange(nc), g.choice([1, 5, 30])]])}
 
     def execute(self, plan):
         from ioflo.aio.proto import stacking
@@ -188,6 +191,62 @@ class C36(Check):
                         break
                 if ok and check(final=True):
                     out.probe("completed")
+                cl = plan.get("closing")
+                if ok and cl and not out.violations:
+                    kind, k, n = cl[0], cl[1] % nc, cl[2]
+                    payload = (b"<Z|" + bytes((7 * j) % 251 for j in range(n)))[:max(n, 4)]
+                    big = 1 << 20
+                    if kind == "s2c":
+                        srv.transmit(FakePkt(payload), cas[k])
+                        sent_s2c[k].extend(payload)
+                        ix = srv.handler.ixes.get(cas[k])
+                        for _ in range(200):
+                            if not guarded("TcpServerStack.serviceAll", srv.serviceAll):
+                                ok = False
+                                break
+                            if ix is None or not ix.txes:
+                                break
+                            if ix.cs.txpipe is not None:
+                                ix.cs.txpipe.deliver(big)
+                            guarded("TcpClientStack.serviceAll", clients[k].serviceAll)     # keep draining so the sender can finish
+                        if ok and ix is not None and ix.cs is not None:
+                            ix.cs.close()       # the server process ends: FIN follows the data
+                            out.probe("sender-closed-after-last-packet")
+                    else:
+                        clients[k].transmit(FakePkt(payload))
+                        sent_c2s[k].extend(payload)
+                        h = clients[k].handler
+                        for _ in range(200):
+                            if not guarded("TcpClientStack.serviceAll", clients[k].serviceAll):
+                                ok = False
+                                break
+                            if not h.txes and not clients[k].txbs and not clients[k].txPkts:
+                                break
+                            if h.cs.txpipe is not None:
+                                h.cs.txpipe.deliver(big)
+                            guarded("TcpServerStack.serviceAll", srv.serviceAll)
+                        if ok and h.cs is not None:
+                            h.cs.close()
+                            out.probe("sender-closed-after-last-packet")
+                    if ok:
+                        net.deliver_all()
+                        for _ in range(6):
+                            if kind == "s2c":
+                                try:
+                                    clients[k].serviceAll()
+                                except OSError:
+                                    break       # the closed connection may legitimately surface as a propagated error later (C25)
+                            else:
+                                try:
+                                    srv.serviceAll()
+                                except OSError:
+                                    break
+                            net.deliver_all()
+                        r_s, r_c = received()
+                        got, want = (r_c[k], bytes(sent_s2c[k])) if kind == "s2c" else (r_s[k], bytes(sent_c2s[k]))
+                        if got != want:
+                            out.violate("lost-at-close", "bytes received before the peer closed were not delivered in a packet",
+                                        "%s peer %d: delivered %r, sent before the close %r" % (kind, k, got[-40:], want[-40:]))
                 tr.add("final", [bytes(x) for x in sent_c2s], [bytes(x) for x in sent_s2c])
         out.digest = tr.digest()
         out.state_digest = abstract.hexdigest()[:16]
